@@ -350,7 +350,7 @@ Definition compile16_with (recovers : bool) (ck : pchecks) (a : schema) : verdic
   if wf a
   then if no_unique_collision a Go && builder_valid (compile_items a Go) then VCompiled (compile_items a Go) else refused recovers
   else if wf_p a ck then VInvalid else VError.
-Definition go_checks : pchecks := PChecks parser_checks_view_partition_key parser_checks_grant_matches.
+Definition go_checks : pchecks := PChecks parser_checks_view_partition_key parser_checks_grant_matches parser_command_parameter_kinds_checked.
 Definition compile16 (a : schema) : verdict := compile16_with parser_recovers_builder_panics go_checks a.
 
 (* ------------------------------------------------------------------ traces *)
@@ -369,7 +369,9 @@ Inductive trace :=
   (* a definition put together through the builder API, bypassing the parser: did Build() accept it? *)
   | TBuilder (d : defn) (accepted : bool)
   (* streams (b), (c): mutated shipped sources, byte strings - observed only *)
-  | TText (obs : text_obs).
+  | TText (obs : text_obs)
+  (* a text built to be well-formed (a control of a crafted shape): it must compile and build *)
+  | TTextOk (obs : text_obs).
 
 Definition obs_total (o : text_obs) : bool :=
   negb (to_panicked o) && negb (to_hung o) && (negb (to_accepted o) || to_built o)
@@ -397,7 +399,7 @@ Definition agrees (t : trace) : bool :=
        | _, _ => false
        end)
   | TBuilder d accepted => Bool.eqb (builder_valid d) accepted
-  | TText _ => true
+  | TText _ | TTextOk _ => true
   end.
 
 (* the property on the observed behaviour: no panic, no hang, an accepted program builds, errors are
@@ -407,4 +409,5 @@ Definition satisfies (t : trace) : bool :=
   | TModel _ _ out obs => obs_total obs && match out with Rejected true => false | _ => true end
   | TBuilder _ _ => true
   | TText obs => obs_total obs
+  | TTextOk obs => obs_total obs && to_built obs
   end.
